@@ -1,5 +1,7 @@
 import Lean.Data.Json
 import PydjinniModel.Gen.Yaml
+import PydjinniModel.Gen.ExportSet
+import PydjinniModel.Drv.FrontJson
 /-! Driver handlers for property C13: `handle op request` answers one JSON request. -/
 namespace Pydjinni.Drv.C13
 open Lean Pydjinni.Gen.Yaml
@@ -181,6 +183,16 @@ def handle (op : String) (req : Json) : Except String Json :=
     | .ok reg => pure (Json.mkObj [("registered", Json.arr (reg.map (fun en => Json.mkObj [("key", keyJ en.key), ("located", en.located)])).toArray)])
     | .invalid => pure (Json.mkObj [("invalid", true)])
     | .duplicate k => pure (Json.mkObj [("duplicate", keyJ k)])
+  | "c13.declared" => do
+    -- the named types of an exporting program (a front request: files, root): qualified name and declaring file of every
+    -- declaration of every file reachable from the root by @import, the files in finish order
+    let cfg ← req.getObjVal? "cfg" >>= Pydjinni.Drv.FrontJson.decodeCfg
+    let files ← req.getObjValAs? (Array Json) "files"
+    let fs ← files.toList.mapM Pydjinni.Drv.FrontJson.decodeFile
+    let root ← req.getObjValAs? String "root"
+    match Pydjinni.Gen.ExportSet.declared cfg fs (Pydjinni.Front.parsePath root).2 with
+    | some l => pure (Json.mkObj [("declared", Json.arr (l.map (fun x => Json.mkObj [("key", Json.str x.1), ("file", Json.str x.2)])).toArray)])
+    | none => pure (Json.mkObj [("declared", Json.null)])
   | "c13.locate" => do
     -- the candidates of an `@extern` literal in search order: "absent" | "dir" | {"file": <id>} -> the id that is loaded
     let given ← req.getObjVal? "as_given" >>= slotOfJson
